@@ -559,7 +559,7 @@ def gen_execute_cases(ctx):
 
 
 def run(ctx):
-    ctx.prove(["PvModel.Props.C20", "PvModel.Props.R20"])
+    ctx.prove(["PvModel.Props.C20", "PvModel.Props.R20", "PvModel.Props.T20"])
     ctx.suites_run.append(SUITE)
     ctx.rule("construction: for every (n, m) in {1,2,3}^2: None, a list, every tuple of length 0..n*m+1 over {serial, thread, process, bad} "
              "(exhaustive up to 256 tuples per length, else constant tuples + random valid assignments + one unknown mode at each position + random), "
